@@ -14,8 +14,8 @@ Proof.
   set (S := select idx lw 0) in *.
   assert (E : exp (Rminus (Rmult (logsumexp (map (fun t_ => Rminus t_ (vmax S)) S)) 2)
                           (logsumexp (map (fun t_ => Rmult t_ 2) (map (fun t_ => Rminus t_ (vmax S)) S))))
-              = effective_sample_size (map (fun t => t + (- vmax S)) S)) by reflexivity.
-  rewrite E, ess_shift_invariant by exact Hne. rewrite effective_sample_size_spec by exact Hne.
+              = ess_expr (map (fun t => t - vmax S) S)) by reflexivity.
+  rewrite E, ess_expr_shift by exact Hne.
   split; [reflexivity|].
   replace (INR (length S)) with (vlen (map exp S)) by (unfold vlen; now rewrite map_length).
   apply ess_of_bounds; [destruct S; [contradiction Hne; reflexivity| discriminate]| apply map_exp_pos].
